@@ -39,7 +39,22 @@ type Prover struct {
 	storedFields map[string]bool
 	// extra length axioms injected by rules: term -> exact length
 	LenAxioms map[string]int64
+	// facts about the parameters imported from the call sites (private helpers)
+	imported     []importedEdge
+	importedDone bool
+	depth        int
 }
+
+type importedEdge struct {
+	from, to string
+	w        int64
+}
+
+// PrivateCallSites, when set, returns every call site of fn if fn is a private
+// helper (never called dynamically); the prover then assumes, on entry to fn,
+// the difference bounds between its integer parameters, the lengths of its
+// sequence parameters and zero that hold at ALL of those call sites.
+var PrivateCallSites func(fn *ssa.Function) []ssa.CallInstruction
 
 func New(fn *ssa.Function) *Prover {
 	p := &Prover{fn: fn, storedFields: map[string]bool{}, LenAxioms: map[string]int64{}}
@@ -405,6 +420,12 @@ func (p *Prover) build(at ssa.Instruction, roots []ssa.Value) *graph {
 	for _, cd := range facts.CondsAt(at.Block()) {
 		p.addCond(g, cd, &neqs, visit, visitSeq)
 	}
+	for _, e := range p.callerFacts() {
+		if g.e == nil {
+			g.e = map[string][]edge{}
+		}
+		g.e[e.from] = append(g.e[e.from], edge{e.to, e.w})
+	}
 	for round := 0; round < 3; round++ {
 		// x != c with x >= c  =>  x >= c+1 ; with x <= c => x <= c-1
 		for _, ne := range neqs {
@@ -459,6 +480,11 @@ func (p *Prover) loopPhiFacts(g *graph, v *ssa.Phi, me lin, visit func(ssa.Value
 		return
 	}
 	init, back := v.Edges[1-bi], v.Edges[bi]
+	// 0. a variable that only grows stays at or above its initial value
+	if dmin, ok := p.minAdvance(back, v, 0); ok && dmin >= 0 {
+		visit(init, depth+1)
+		g.le(p.toLin(init), me)
+	}
 	// 1. counted loop
 	if bo, ok := stripConv(back).(*ssa.BinOp); ok && bo.Op == token.ADD && stripConv(bo.X) == ssa.Value(v) {
 		if c, ok := constOf(bo.Y); ok && c >= 1 {
@@ -521,6 +547,109 @@ func (p *Prover) loopPhiFacts(g *graph, v *ssa.Phi, me lin, visit func(ssa.Value
 	}
 }
 
+// callerFacts: see PrivateCallSites.
+func (p *Prover) callerFacts() []importedEdge {
+	if p.importedDone {
+		return p.imported
+	}
+	p.importedDone = true
+	fn := p.fn
+	if PrivateCallSites == nil || p.depth >= 2 || fn.Parent() != nil {
+		return nil
+	}
+	sites := PrivateCallSites(fn)
+	if len(sites) == 0 {
+		return nil
+	}
+	type node struct {
+		idx int // parameter index, -1 for zero
+		seq bool
+	}
+	nodes := []node{{-1, false}}
+	for i, prm := range fn.Params {
+		switch {
+		case isInt(prm.Type()):
+			nodes = append(nodes, node{i, false})
+		case isSeq(prm.Type()):
+			nodes = append(nodes, node{i, true})
+		}
+	}
+	if len(nodes) < 2 {
+		return nil
+	}
+	calleeLin := func(n node) lin {
+		if n.idx < 0 {
+			return lin{"", 0}
+		}
+		if n.seq {
+			return p.lenLin(fn.Params[n.idx])
+		}
+		return p.toLin(fn.Params[n.idx])
+	}
+	type key struct{ x, y int }
+	best := map[key]int64{}
+	have := map[key]int{}
+	for _, s := range sites {
+		args := s.Common().Args
+		if len(args) != len(fn.Params) {
+			return nil
+		}
+		cp := New(s.Parent())
+		cp.depth = p.depth + 1
+		var roots []ssa.Value
+		for _, n := range nodes {
+			if n.idx >= 0 {
+				roots = append(roots, args[n.idx])
+			}
+		}
+		cg := cp.build(s, roots)
+		callerLin := func(n node) lin {
+			if n.idx < 0 {
+				return lin{"", 0}
+			}
+			if n.seq {
+				return cp.lenLin(args[n.idx])
+			}
+			return cp.toLin(args[n.idx])
+		}
+		for xi, x := range nodes {
+			for yi, y := range nodes {
+				if xi == yi {
+					continue
+				}
+				lx, ly := callerLin(x), callerLin(y)
+				var w int64
+				if lx.base == ly.base {
+					w = 0
+				} else if d, ok := cg.dist(ly.base, lx.base); ok {
+					w = d
+				} else {
+					continue
+				}
+				// value_x - value_y <= D
+				D := w + lx.off - ly.off
+				k := key{xi, yi}
+				if have[k] == 0 || D > best[k] {
+					best[k] = D
+				}
+				have[k]++
+			}
+		}
+	}
+	for k, D := range best {
+		if have[k] != len(sites) {
+			continue
+		}
+		ex, ey := calleeLin(nodes[k.x]), calleeLin(nodes[k.y])
+		if ex.base == ey.base {
+			continue
+		}
+		// ex.base + ex.off - (ey.base + ey.off) <= D
+		p.imported = append(p.imported, importedEdge{from: ey.base, to: ex.base, w: D - ex.off + ey.off})
+	}
+	return p.imported
+}
+
 func stripConv(v ssa.Value) ssa.Value {
 	for i := 0; i < 4; i++ {
 		if cv, ok := v.(*ssa.Convert); ok && isInt(cv.Type()) && isInt(cv.X.Type()) {
@@ -530,6 +659,43 @@ func stripConv(v ssa.Value) ssa.Value {
 		break
 	}
 	return v
+}
+
+// minAdvance: the smallest c such that val can be root + c (see maxAdvance).
+func (p *Prover) minAdvance(val ssa.Value, root *ssa.Phi, depth int) (int64, bool) {
+	val = stripConv(val)
+	if depth > 6 {
+		return 0, false
+	}
+	if val == ssa.Value(root) {
+		return 0, true
+	}
+	switch x := val.(type) {
+	case *ssa.BinOp:
+		if c, ok := constOf(x.Y); ok && (x.Op == token.ADD || x.Op == token.SUB) {
+			d, ok := p.minAdvance(x.X, root, depth+1)
+			if x.Op == token.SUB {
+				c = -c
+			}
+			return d + c, ok
+		}
+	case *ssa.Phi:
+		if x.Block() == root.Block() {
+			return 0, false
+		}
+		var best int64
+		for i, e := range x.Edges {
+			d, ok := p.minAdvance(e, root, depth+1)
+			if !ok {
+				return 0, false
+			}
+			if i == 0 || d < best {
+				best = d
+			}
+		}
+		return best, true
+	}
+	return 0, false
 }
 
 // maxAdvance: the largest c such that val can be root + c, following phis
